@@ -773,6 +773,9 @@ func (f *frame) enterLoop(li *loopInfo, reach Term, cur *State, phiPre map[*ssa.
 		for _, k := range ks {
 			vc.heapWF(cur.H[k], k, cur.Alloc.S)
 		}
+		for _, k := range ks {
+			vc.mapCard(cur.H[k], k, vc.heap(cur, "ML"), "")
+		}
 		f.loopFrameAssume(li, ks, cur, reach)
 	}
 	li.phiHead = map[*ssa.Phi]Term{}
